@@ -321,6 +321,16 @@ impl Delta {
     }
 }
 
+#[cfg(feature = "verif")]
+impl Delta {
+    pub(crate) fn verif_from_parts(node_deltas: Vec<NodeDelta>, serialized_len: usize) -> Delta {
+        Delta {
+            node_deltas,
+            serialized_len,
+        }
+    }
+}
+
 #[derive(Debug, Eq, PartialEq)]
 pub(crate) struct NodeDelta {
     pub chitchat_id: ChitchatId,
